@@ -87,11 +87,21 @@ class C05(core.PropBase):
             vals = values_with_refs_text(rng, doc)
             for e in envs:
                 vals.update(G.gen_values(rng, e))
-            yield {"doc": doc, "envs": envs, "vals": vals}
+            case = {"doc": doc, "envs": envs, "vals": vals}
+            if i % 3 == 1:
+                # the same decoded template object serves earlier create_job calls with OTHER values first: the
+                # Job for `vals` must not remember them (one template, many Jobs is the normal way to use it)
+                case["earlier"] = []
+                for _ in range(rng.choice([1, 1, 2])):
+                    ev = values_with_refs_text(rng, doc)
+                    for e in envs:
+                        ev.update(G.gen_values(rng, e))
+                    case["earlier"].append(ev)
+            yield case
 
     def rule(self, tier):
         return ("generated job templates (every 6th with every optional field populated; every 5th with 1-2 environment templates) x accepted value "
-                "assignments incl. brace / reference-looking text; compared only when create_job returns a Job (failures belong to C06). "
+                "assignments incl. brace / reference-looking text; every third case after 1-2 earlier create_job calls with other values on the SAME decoded template object; compared only when create_job returns a Job (failures belong to C06). "
                 "distinct = by (document, values); non-trivial = template with at least one creation-time reference or a parameter space / host requirement")
 
     def samples(self, tier, seed):
@@ -131,6 +141,7 @@ class C05(core.PropBase):
             for p in e.get("parameterDefinitions") or []:
                 types[p["name"]] = p["type"]
         prep["jt"], prep["ets"] = jt, ets
+        prep["earlier"] = [{k: ParameterValue(type=ParameterValueType(types[k]), value=v) for k, v in ev.items() if k in types} for ev in case.get("earlier", [])]
         prep["final"] = [[core.cps(k), core.cps(v.type.value), core.cps(v.value)] for k, v in final.items()]
         prep["pv"] = {k: ParameterValue(type=ParameterValueType(types[k]), value=v) for k, v in case["vals"].items()}
         case["_prep"] = prep
@@ -140,6 +151,11 @@ class C05(core.PropBase):
         prep = self.prepare(case)
         if prep["skip"]:
             return ["skip", prep["skip"]]
+        for ev in prep.get("earlier", []):
+            try:
+                create_job(job_template=prep["jt"], job_parameter_values=ev, environment_templates=prep["ets"] or None)
+            except Exception:  # noqa: BLE001
+                pass
         try:
             job = create_job(job_template=prep["jt"], job_parameter_values=prep["pv"], environment_templates=prep["ets"] or None)
         except DecodeValidationError:
